@@ -1442,7 +1442,22 @@ func runB8(p *an.Prog, r *an.Result) {
 					return
 				}
 				res := resultsOf(ret)
-				if len(res) > 0 && an.IsNilConst(res[len(res)-1]) && !instrDominates(s, ret) {
+				if len(res) == 0 || instrDominates(s, ret) {
+					return
+				}
+				ev := res[len(res)-1]
+				if an.IsNilConst(ev) {
+					skipped = true
+					return
+				}
+				// `return err` is a success return too unless every path here has found err non-nil
+				if !an.AllPathsGuarded(ret.Block(), func(cond ssa.Value, taken bool) bool {
+					b, ok := cond.(*ssa.BinOp)
+					if !ok || !(b.Op == token.NEQ && taken || b.Op == token.EQL && !taken) {
+						return false
+					}
+					return an.IsNilConst(b.Y) && (b.X == ev || sameValue(b.X, ev)) || an.IsNilConst(b.X) && (b.Y == ev || sameValue(b.Y, ev))
+				}) {
 					skipped = true
 				}
 			})
@@ -1833,6 +1848,68 @@ func runB9(p *an.Prog, r *an.Result) {
 				r.Bad(an.FuncName(f), "cache entry stored under a computed key ("+describe(p, mu.Key)+")", in.Pos(), "the include cache is consulted with the full path of the missing file; an entry stored under anything but the path the caller registered makes other names resolve to this source")
 			}
 		})
+	}
+	// an entry registered after a template was parsed is still found by that template: either the cache map
+	// is only ever updated in place (a copy of the configuration shares it), or a template reaches the
+	// configuration through a pointer to the engine's (and so sees a map that replaced the old one)
+	{
+		var replaced token.Pos
+		var replacedIn string
+		for _, f := range p.Funcs {
+			if f.Blocks == nil || isMainPkg(f) {
+				continue
+			}
+			an.EachInstr(f, func(in ssa.Instruction) {
+				st, ok := in.(*ssa.Store)
+				if !ok {
+					return
+				}
+				fa, ok := st.Addr.(*ssa.FieldAddr)
+				if !ok || fieldName(fa) != "Cache" {
+					return
+				}
+				if _, isMap := st.Val.Type().Underlying().(*types.Map); !isMap {
+					return
+				}
+				// where the configuration is being built (the struct is allocated here, or this is its constructor)
+				if _, fresh := an.Deref(fa.X).(*ssa.Alloc); fresh {
+					return
+				}
+				if al, fresh := fa.X.(*ssa.Alloc); fresh && al.Heap {
+					return
+				}
+				for _, o := range an.Origins(fa.X, an.StepBase) {
+					if _, isAl := o.(*ssa.Alloc); isAl {
+						return
+					}
+				}
+				if strings.HasPrefix(f.Name(), "New") {
+					return
+				}
+				replaced, replacedIn = in.Pos(), an.FuncName(f)
+			})
+		}
+		byValue := ""
+		for _, n := range moduleNamedTypes(p) {
+			st, ok := n.Underlying().(*types.Struct)
+			if !ok || n.Obj().Pkg() == nil || an.RelPkg(n.Obj().Pkg().Path()) != "" || n.Obj().Name() != "Template" {
+				continue
+			}
+			for i := 0; i < st.NumFields(); i++ {
+				if isNamedIn(st.Field(i).Type(), "render", "Config") {
+					byValue = n.Obj().Name() + "." + st.Field(i).Name()
+				}
+			}
+		}
+		r.Counts["cache identity"]++
+		switch {
+		case replaced.IsValid() && byValue != "":
+			r.Bad(replacedIn, "the cache map is replaced while templates hold a copy of the configuration", replaced, fmt.Sprintf("%s stores a new map into the Cache field and %s is a render.Config by value, copied when the template was parsed: source registered afterwards is never found by an include of that template", replacedIn, byValue))
+		case replaced.IsValid():
+			r.OK(replacedIn, "the cache map is replaced, templates reach the configuration by pointer", replaced, "")
+		default:
+			r.OK(rname, "the cache map is only ever updated in place", an.FuncPos(rfn), "a copy of the configuration shares it")
+		}
 	}
 	// ... at the location of the include tag: a nested include resolves its name against the path of
 	// the template that was parsed, and an error inside the included text is reported at the tag
